@@ -19,12 +19,12 @@ func init() {
 		ID: "C15",
 		Decides: "core/scheduler: (U1) duty subscribers are invoked only from the trigger goroutine that scheduleSlot starts once per duty type of the ticked slot, " +
 			"scheduleSlot is invoked once per value received from the slot ticker, and the ticker advances its slot by Next() after every emission and only otherwise re-reads the clock after the slot-start wait; " +
-			"(U2) every subscriber call is preceded by the successful slot-offset wait (delaySlotOffset / waitForEarlyFetchOrTimeout), whose deadline is slot.Time + slotOffsets[type](slot duration); " +
+			"(U2) every subscriber call is preceded by the successful slot-offset wait (delaySlotOffset / waitForEarlyFetchOrTimeout), whose deadline is slot.Time + slotOffsets[type](slot duration), and the registered offset functions (folded over their SSA form for a spread of slot durations) never yield less than 1/3 (attester) / 2/3 (aggregator, sync contribution) of the slot; " +
 			"(U3) every duty definition stored comes from one beacon duty: public key looked up by that duty's validator index in the active-validator list (ok checked), equal to the duty's own key, " +
 			"slot not before the resolving slot, definition built from the same duty; the validator list holds only active / activating validators; " +
 			"(U4) setDutyDefinition never overwrites a (duty, validator) entry and the scheduler's duty state is touched only under dutiesMutex; " +
 			"(U5) each subscriber receives its own clone of the definition set; (U6) an epoch is marked resolved only after all three resolutions succeeded.",
-		NotDecided: "completeness (every assigned duty is eventually triggered), wall-clock timing and the offset arithmetic itself, behaviour under concrete failure patterns, " +
+		NotDecided: "completeness (every assigned duty is eventually triggered), wall-clock timing, offset functions that are not closed integer/float arithmetic on the slot duration, behaviour under concrete failure patterns, " +
 			"uniqueness of core.AllDutyTypes(), correctness of the beacon node's answers.",
 		Run: c15,
 		Mutants: []Mutant{
@@ -182,6 +182,19 @@ func init() {
 			{ID: "C15-U3-sync-bound-by-slot-number", File: f, Expect: "U3",
 				Old: "\t\tvar (\n\t\t\tstartSlot = slot\n\t\t\tcurrEpoch = slot.Epoch()\n\t\t)\n\n\t\tfor sl := startSlot; sl.Epoch() == currEpoch; sl = sl.Next() {",
 				New: "\t\tstartSlot := slot\n\n\t\tfor sl := startSlot; sl.Slot < startSlot.Slot+startSlot.SlotsPerEpoch; sl = sl.Next() {"},
+			// round 4 (seed C15-r4A): the offset arithmetic itself
+			{ID: "C15-U2-offset-truncated-to-seconds", File: "core/scheduler/offset.go", Expect: "U2|offset arithmetic",
+				Old: "return (total * time.Duration(x)) / time.Duration(y)",
+				New: "return (total.Truncate(time.Second) * time.Duration(x)) / time.Duration(y)"},
+			{ID: "C15-U2-offset-float-seconds", File: "core/scheduler/offset.go", Expect: "U2|offset arithmetic",
+				Old: "return (total * time.Duration(x)) / time.Duration(y)",
+				New: "return time.Duration(int64(total.Seconds())*x/y) * time.Second"},
+			{ID: "C15-U2-attester-fraction-smaller", File: "core/scheduler/offset.go", Expect: "U2|slotOffsets[DutyAttester]",
+				Old: "core.DutyAttester:         fraction(1, 3),",
+				New: "core.DutyAttester:         fraction(1, 4),"},
+			{ID: "C15-U2-aggregator-offset-removed", File: "core/scheduler/offset.go", Expect: "U2|slotOffsets[DutyAggregator]",
+				Old: "\tcore.DutyAggregator:       fraction(2, 3), // 2/3 slot duration\n",
+				New: ""},
 		},
 	})
 }
@@ -248,6 +261,8 @@ type c15Env struct {
 	leaks map[*ssa.Function]bool                  // used as a value (method value, stored, passed)
 
 	inFieldInit  int
+	opaque       int       // number of parameter-object field reads that could not be resolved (see fieldInit)
+	lastStop     ssa.Value // where the last failing cellOf walk stopped
 	nFieldStores map[string]int
 	// ctx binds a helper with several static uses to the use under analysis (context sensitivity of
 	// origin / rooted / cellOf / argOf while a rule looks into the helper on behalf of one caller)
@@ -488,8 +503,12 @@ func (e *c15Env) fieldInit(base ssa.Value, idx int) ssa.Value {
 	}
 	e.inFieldInit++
 	defer func() { e.inFieldInit-- }()
-	cell := e.cellOf(base)
+	e.lastStop = nil
+	cell, via := e.cellVia(base)
 	if cell == nil {
+		if nt, ok := c15Deref(base.Type()).(*types.Named); ok && nt.Obj().Pkg() == e.pkg.Pkg && nt.Obj().Name() != "Scheduler" && e.lastStop != nil && e.opaqueObject(e.lastStop) {
+			e.opaque++
+		}
 		return nil
 	}
 	if _, isStruct := cell.Type().Underlying().(*types.Pointer).Elem().Underlying().(*types.Struct); !isStruct {
@@ -511,6 +530,11 @@ func (e *c15Env) fieldInit(base ssa.Value, idx int) ssa.Value {
 			}
 		case ssa.CallInstruction:
 			shared = true
+		case *ssa.Return:
+			if via == nil {
+				return nil
+			}
+			shared = true // the address of the object is what the constructor returns
 		default:
 			return nil
 		}
@@ -522,6 +546,17 @@ func (e *c15Env) fieldInit(base ssa.Value, idx int) ssa.Value {
 	}
 	if shared && e.fieldStores(key) != 1 {
 		return nil
+	}
+	if via != nil {
+		// the object was built by the function called at via: a field initialised with a parameter of that
+		// function holds the argument of this call
+		if p, ok := c15Local(sts[0].Val).(*ssa.Parameter); ok && p.Parent() == cell.Parent() {
+			for i, q := range p.Parent().Params {
+				if q == p && i < len(via.Call.Args) {
+					return via.Call.Args[i]
+				}
+			}
+		}
 	}
 	return sts[0].Val
 }
@@ -637,20 +672,121 @@ func (e *c15Env) subCall() an.Matcher {
 // pointer to it; copies through single-assignment locals, captured variables and parameters of
 // single-use helpers are looked through.
 func (e *c15Env) cellOf(v ssa.Value) *ssa.Alloc {
+	cell, _ := e.cellVia(v)
+	return cell
+}
+
+// returned resolves result idx of a call of a function of the package to the one value the function returns
+// there. Returns that hand back a zero value together with a constant false / a freshly made error (the
+// "nothing" exits of a constructor) are not candidates. nil when there is not exactly one candidate.
+func (e *c15Env) returned(k *ssa.Call, idx int) ssa.Value {
+	if k.Call.IsInvoke() {
+		return nil
+	}
+	h := k.Call.StaticCallee()
+	if h == nil {
+		return nil
+	}
+	h = an.Orig(h)
+	if h.Pkg != e.pkg || len(h.Blocks) == 0 || h.Signature.Results().Len() <= idx {
+		return nil
+	}
+	var out ssa.Value
+	for _, r := range an.Returns(h) {
+		rv := returnValues(r)
+		if idx >= len(rv) {
+			return nil
+		}
+		if c15IsZero(rv[idx]) {
+			nothing := false
+			for j, o := range rv {
+				if j == idx {
+					continue
+				}
+				if kb, isConst := c15ConstBool(o); isConst && !kb {
+					nothing = true
+				}
+				if an.TypeName(o.Type()) == "error" {
+					if kc, isC := o.(*ssa.Const); !isC || !kc.IsNil() {
+						nothing = true
+					}
+				}
+			}
+			if nothing {
+				continue
+			}
+		}
+		if out != nil && out != rv[idx] {
+			return nil
+		}
+		out = rv[idx]
+	}
+	return out
+}
+
+// c15IsZero: v is the zero value of its type (a zero constant, or a copy of a local that is never written).
+func c15IsZero(v ssa.Value) bool {
+	switch x := an.Unwrap(v).(type) {
+	case *ssa.Const:
+		return x.Value == nil
+	case *ssa.UnOp:
+		if a, ok := x.X.(*ssa.Alloc); ok && x.Op == token.MUL {
+			for _, ref := range *a.Referrers() {
+				switch r := ref.(type) {
+				case *ssa.DebugRef:
+				case *ssa.UnOp:
+					if r.Op != token.MUL {
+						return false
+					}
+				default:
+					return false
+				}
+			}
+			return true
+		}
+	}
+	return false
+}
+
+// cellVia is cellOf; via is the call of a function of the package through whose result the walk entered the
+// function that owns the cell (nil when the cell was reached without crossing a result).
+func (e *c15Env) cellVia(v ssa.Value) (cell *ssa.Alloc, via *ssa.Call) {
 	for i := 0; i < 48 && v != nil; i++ {
 		v = an.Unwrap(v)
 		switch x := v.(type) {
 		case *ssa.Alloc:
 			s := c15UniqueStore(x)
 			if s == nil || c15HasFieldWrites(x) {
-				return x // assigned several times, built field by field, or modified after its initialisation
+				if via != nil && an.Orig(via.Call.StaticCallee()) != x.Parent() {
+					via = nil
+				}
+				return x, via // assigned several times, built field by field, or modified after its initialisation
 			}
 			v = s
+		case *ssa.Extract:
+			k, isCall := x.Tuple.(*ssa.Call)
+			if !isCall {
+				e.lastStop = v
+				return nil, nil
+			}
+			r := e.returned(k, x.Index)
+			if r == nil {
+				e.lastStop = v
+				return nil, nil
+			}
+			v, via = r, k
+		case *ssa.Call:
+			r := e.returned(x, 0)
+			if r == nil || x.Call.Signature().Results().Len() != 1 {
+				e.lastStop = v
+				return nil, nil
+			}
+			v, via = r, x
 		case *ssa.FreeVar:
 			v = c15Binding(x)
 		case *ssa.UnOp:
 			if x.Op != token.MUL {
-				return nil
+				return nil, nil
 			}
 			if fa, ok := x.X.(*ssa.FieldAddr); ok {
 				v = e.fieldInit(fa.X, fa.Field) // a struct kept in a field of a parameter object
@@ -663,11 +799,51 @@ func (e *c15Env) cellOf(v ssa.Value) *ssa.Alloc {
 			v = e.fieldInit(x.X, x.Field) // address of a struct kept in a field of a parameter object
 		case *ssa.Parameter:
 			v = e.argOf(x)
+			if v == nil {
+				e.lastStop = x
+			}
 		default:
-			return nil
+			e.lastStop = v
+			return nil, nil
 		}
 	}
-	return nil
+	return nil, nil
+}
+
+// opaqueObject: the walk of cellOf ended at a value that may well be a parameter object built elsewhere (the
+// result of a function of the package, a parameter of a function with several / unknown callers).
+func (e *c15Env) opaqueObject(v ssa.Value) bool {
+	switch x := v.(type) {
+	case *ssa.Parameter:
+		return true
+	case *ssa.Extract:
+		return e.opaqueObject(x.Tuple)
+	case *ssa.Call:
+		callee := x.Call.StaticCallee()
+		return callee == nil || an.Orig(callee).Pkg == e.pkg
+	case *ssa.Phi:
+		return true
+	}
+	return false
+}
+
+// checkTraced is c.Check for an obligation decided by value tracing (origin / rooted / cellOf / fieldOf): when
+// the trace failed and, since mark, ran into a field of a parameter object whose construction could not be
+// followed (a struct of this package returned by a helper, handed on through a function with several callers),
+// the value is unknown, not different: UNDECIDED.
+func (e *c15Env) checkTraced(name string, pos token.Pos, ok bool, mark int, detail string) bool {
+	if !ok && e.opaque > mark {
+		e.c.Unsure(name, pos, "a value is read from a field of a parameter object of the package whose construction could not be followed (built in a helper / shared by several callers): "+detail)
+		return false
+	}
+	return e.c.Check(name, pos, ok, detail)
+}
+
+func c15Deref(t types.Type) types.Type {
+	if p, ok := t.Underlying().(*types.Pointer); ok {
+		return p.Elem()
+	}
+	return t
 }
 
 func c15HasFieldWrites(a *ssa.Alloc) bool {
@@ -2203,11 +2379,12 @@ func c15U2(c *rt.Ctx) {
 			c.Check(name, s.Pos(), good,
 				"a path reaches the duty subscribers without the slot-offset wait having returned true (duty triggered before its offset / after cancellation)")
 		}
+		mark := e.opaque
 		cell := c15DutyCell(e, s)
 		if lit == nil {
 			lit = cell
 		}
-		c.Check(an.FuncName(trig)+" subscriber call duty", s.Pos(), cell != nil && cell == lit && cell.Parent() == sched,
+		e.checkTraced(an.FuncName(trig)+" subscriber call duty", s.Pos(), cell != nil && cell == lit && (cell.Parent() == sched || e.owned(sched)[cell.Parent()]), mark,
 			"the duty handed to subscribers is not the duty the goroutine was started for")
 	}
 	att := constOf(c, "core", "DutyAttester")
@@ -2222,13 +2399,15 @@ func c15U2(c *rt.Ctx) {
 			switch an.Orig(g.Call.StaticCallee()) {
 			case delayFn:
 				nBase++
+				mark := e.opaque
 				d := c15ArgT(&g.Call, "core.Duty")
 				ok := e.rooted(c15ArgT(&g.Call, "core.Slot"), slotP) && d != nil && lit != nil && e.cellOf(d) == lit &&
 					isLoadOfValueField(e.origin(c15ArgT(&g.Call, c15P+".delayFunc")), c15Sched+".delayFunc")
-				c.Check(an.FuncName(fn)+" delaySlotOffset arguments", g.Pos(), ok,
+				e.checkTraced(an.FuncName(fn)+" delaySlotOffset arguments", g.Pos(), ok, mark,
 					"delaySlotOffset is not applied to the ticked slot, the triggered duty and the scheduler's delay function")
 			case waitFn:
 				nBase++
+				mark := e.opaque
 				ok := e.rooted(c15ArgT(&g.Call, "core.Slot"), slotP)
 				// only for attester duties (the fallback uses the attester offset): on every path to the call
 				// the comparison duty.Type == DutyAttester is known to hold
@@ -2255,7 +2434,7 @@ func c15U2(c *rt.Ctx) {
 					c.Unsure(name, g.Pos(), "too many paths to enumerate")
 					continue
 				}
-				c.Check(name, g.Pos(), ok && only,
+				e.checkTraced(name, g.Pos(), ok && only, mark,
 					"waitForEarlyFetchOrTimeout (attester offset) is not restricted to attester duties of the ticked slot")
 			}
 		}
@@ -2287,6 +2466,7 @@ func c15U2(c *rt.Ctx) {
 		}
 	}
 	c.Check("slotOffsets written only by its initialiser", at, !written, "the slot offset table is modified at run time")
+	c15OffsetArithmetic(c, e, glob)
 }
 
 // c15Deadline checks that fn returns true only when there is no offset for the duty type or after the
@@ -2752,6 +2932,7 @@ func (e *c15Env) levels(sink ssa.Instruction, top *ssa.Function) []c15Level {
 // A violation needs an unguarded arrival at every level (then a path through all of them exists).
 func c15CheckHoldsUp(c *rt.Ctx, e *c15Env, name string, sink ssa.Instruction, top *ssa.Function, find func(fn *ssa.Function) []c15Atom, detail string) bool {
 	opaque, undecided := false, false
+	mark := e.opaque
 	for _, lv := range e.levels(sink, top) {
 		atoms := c15Atoms(e, lv.fn, find, 0)
 		if len(atoms) == 0 {
@@ -2782,7 +2963,7 @@ func c15CheckHoldsUp(c *rt.Ctx, e *c15Env, name string, sink ssa.Instruction, to
 		c.Unsure(name, sink.Pos(), "the deciding test sits in a helper whose result could not be summarised; it cannot be tied to this call's arguments")
 		return false
 	}
-	return c.Check(name, sink.Pos(), false, detail)
+	return e.checkTraced(name, sink.Pos(), false, mark, detail)
 }
 
 func c15ShortName(fn *ssa.Function) string {
@@ -3332,7 +3513,11 @@ func c15U3(c *rt.Ctx) {
 			}
 			// duty slot
 			if ctor == "core.NewSyncContributionDuty" {
+				mark := e.opaque
 				ok, unsure, why := c15SyncSlots(e, fn, sink, dutyCall.Call.Args[0], slotP, loop)
+				if !ok && !unsure && e.opaque > mark {
+					unsure, why = true, "a value is read from a field of a parameter object whose construction could not be followed: "+why
+				}
 				if unsure {
 					c.Unsure(name+" slot range", sink.Pos(), why)
 				} else {
@@ -3383,7 +3568,8 @@ func c15U3(c *rt.Ctx) {
 			if ep == nil {
 				c.Unsure(name+" epoch", sink.Pos(), "the epoch the definition is filed under is not the result of Slot.Epoch()")
 			} else {
-				c.Check(name+" epoch", sink.Pos(), e.rooted(ep.Call.Args[0], slotP),
+				mark := e.opaque
+				e.checkTraced(name+" epoch", sink.Pos(), e.rooted(ep.Call.Args[0], slotP), mark,
 					"the definition is not filed under the epoch being resolved (it would not be trimmed with it)")
 			}
 			// public key: looked up by D's validator index in vals, found on every path. The lookup may sit at any
@@ -4154,13 +4340,14 @@ func c15U5(c *rt.Ctx) {
 				continue
 			}
 		}
+		mark := e.opaque
 		src, _ := e.origin(clone.Call.Args[0]).(*ssa.Extract)
 		var get *ssa.Call
 		if src != nil && src.Index == 0 {
 			get, _ = src.Tuple.(*ssa.Call)
 		}
 		if get == nil || !e.owned(sched)[get.Parent()] || !an.Static(c15P+".Scheduler.getDutyDefinitionSet")(&get.Call) {
-			c.Bad(name, s.Pos(), "the clone handed to subscribers is not a clone of the definition set the goroutine was started with")
+			e.checkTraced(name, s.Pos(), false, mark, "the clone handed to subscribers is not a clone of the definition set the goroutine was started with")
 			continue
 		}
 		l := an.InnermostLoop(trig, s.Block())
